@@ -86,7 +86,7 @@ func runC13(c *Ctx) {
 		// per-uncle rules: at the end of every iteration that continues the loop
 		un := `Block#0\.Uncles\(\)\[\(phi:rangeindex(~\d+)? \+ 1\)\]`
 		hash := un + `\.SetVersion\(ChainReader#0\.Config\(\)\.GetBlockVersion\(` + un + `\.Number\)\)`
-		legacy := `^phi:number(~\d+)? <= 15000$` // historical main-net exceptions below block 15000 are consensus, frozen
+		legacy := `^` + PH + ` <= 15000$` // historical main-net exceptions below block 15000 are consensus, frozen
 		c.MustLoopBack("C13-R2", fn, `^Aquahash\.verifyHeader$`, []LitReq{
 			{Name: "uncle not seen before (unique)", Unless: legacy, Re: `^!mapset\.NewSet\(nil\)\.Contains\(.*\)$`},
 			{Name: "uncle is not an ancestor", Re: `^make\(map\[Hash\]Header\)\[` + hash + `\] == nil$`},
@@ -115,7 +115,7 @@ func runC13(c *Ctx) {
 		}
 		// ancestor window: the ancestor loop is bounded by 7
 		c.MustOnAccept("C13-R2", fn, -1, false, []LitReq{
-			{Name: "ancestor window is 7 generations", Unless: fake, Re: `^(phi:i(~\d+)? >= 7|ChainReader#0\.GetBlock\(phi:parent(~\d+)?, phi:number(~\d+)?\) == nil)$`},
+			{Name: "ancestor window is 7 generations", Unless: fake, Re: `^(` + PH + ` >= 7|ChainReader#0\.GetBlock\(` + PH + `, ` + PH + `\) == nil)$`},
 		})
 	})
 	c.Min("C13-R2", 16)
@@ -185,10 +185,16 @@ func c13Difficulty(c *Ctx) {
 	}
 	// (a) selection tables for min / limit / adjust
 	sel := func(name string, order []int, vals map[int]string, def string) {
-		f := c.FactsFocus(fn, `^!?ChainConfig#0\.IsHF\(`, true, name)
-		phi, rows := f.PhiTable(name)
+		// the selected variable is identified by the values it can take (the scheduled constants), not by its name
+		f := c.FactsFocus(fn, `^!?ChainConfig#0\.IsHF\(`, true, "type:Int")
+		domain := map[string]bool{def: true}
+		for _, v := range vals {
+			domain[v] = true
+		}
+		phi := phiByLeaves(c, fn, func(t string) bool { return domain[t] })
+		rows := f.PhiTableOf(phi)
 		if phi == nil || len(rows) == 0 {
-			c.Ob("C13-R3", "calcDifficultyHFX selects "+name+" by fork", c.FnPos(fn), false, "no phi named "+name+" found")
+			c.Ob("C13-R3", "calcDifficultyHFX selects "+name+" by fork", c.FnPos(fn), false, "no variable selected among the scheduled "+name+" constants found")
 			return
 		}
 		seen := map[string]bool{}
@@ -224,10 +230,12 @@ func c13Difficulty(c *Ctx) {
 	div := func(d string) string { return "new(Int)~2.Div(Header#0.Difficulty, params." + d + ")" }
 	_ = div
 	{
-		f := c.FactsFocus(fn, `^!?ChainConfig#0\.IsHF\(`, true, "adjust")
-		phi, rows := f.PhiTable("adjust")
+		f := c.FactsFocus(fn, `^!?ChainConfig#0\.IsHF\(`, true, "type:Int")
+		adjRe := regexp.MustCompile(`^new\(Int\)(~\d+)?\.Div\(Header#0\.Difficulty, params\.DifficultyBoundDivisor\w*\)$`)
+		phi := phiByLeaves(c, fn, func(t string) bool { return adjRe.MatchString(t) })
+		rows := f.PhiTableOf(phi)
 		if phi == nil {
-			c.Ob("C13-R3", "calcDifficultyHFX selects adjust by fork", c.FnPos(fn), false, "no phi named adjust")
+			c.Ob("C13-R3", "calcDifficultyHFX selects adjust by fork", c.FnPos(fn), false, "no variable selected among parent.Difficulty / DifficultyBoundDivisor* found")
 		}
 		for _, r := range rows {
 			want := "DifficultyBoundDivisor"
@@ -257,8 +265,8 @@ func c13Difficulty(c *Ctx) {
 				continue
 			}
 			n++
-			_, ge := hasLit(rs.State, regexp.MustCompile(`^new\(Int\)(~\d+)?\.Set\(Header#0\.Difficulty\) >= phi:min$`))
-			_, set := hasLit(rs.State, regexp.MustCompile(`^called:new\(Int\)(~\d+)?\.Set\(Header#0\.Difficulty\)\.Set\(phi:min\)$`))
+			_, ge := hasLit(rs.State, regexp.MustCompile(`^new\(Int\)(~\d+)?\.Set\(Header#0\.Difficulty\) >= ` + PH + `$`))
+			_, set := hasLit(rs.State, regexp.MustCompile(`^called:new\(Int\)(~\d+)?\.Set\(Header#0\.Difficulty\)\.Set\(` + PH + `\)$`))
 			c.Ob("C13-R3", "calcDifficultyHFX general path result is clamped to min", c.Position(rs.Ret.Pos()), ge || set,
 				"path literals: "+strings.Join(rs.State.Lits(), "; "))
 		}
